@@ -239,27 +239,15 @@ def _check_iter(hist, li, ref, ref_max, traits):
     if kind == "up_to_length":
         if arg > ref_max:
             return
-        lens = [len(p) for p in items]
-        if lens != sorted(lens):
-            hist.violate("wrong_answer", dict(traits, op="iter:up_to_length"), "lengths not non-decreasing")
-            return
-        upto = arg if li.exhausted else (max(lens) - 1 if lens else -1)
         if li.exhausted:
             bad = avops.check_levels(ref, pseudo, li.items, arg)
         else:
-            by_len = {}
-            for p in items:
-                by_len.setdefault(len(p), set()).add(p)
+            # a prefix: every item is a member of length <= arg (order is not promised)
             bad = None
-            for n, got in by_len.items():
-                want = RC.level(ref, n)
-                if not got <= want:
-                    bad = ("wrong_answer", {"op": "up_to_length"}, f"non-member of length {n}: {sorted(got - want)[:2]}")
-                elif n <= upto and got != want:
-                    bad = ("wrong_answer", {"op": "up_to_length"}, f"level {n} incomplete before a longer permutation was yielded")
-            for n in range(0, upto + 1):
-                if n not in by_len and RC.count(ref, n):
-                    bad = ("wrong_answer", {"op": "up_to_length"}, f"level {n} skipped")
+            for p in items:
+                if len(p) > arg or p not in RC.level(ref, len(p)):
+                    bad = ("wrong_answer", {"op": "up_to_length"}, f"{p} is not a member of length <= {arg}")
+                    break
         if bad:
             hist.violate(bad[0], dict(traits, **dict(bad[1], op="iter:up_to_length")), f"up_to_length({arg}): {bad[2]}")
         return
